@@ -303,10 +303,10 @@ func (w *World) runOp(rec *OpRec) {
 	e := w.Env
 	rec.ctx, rec.cancel = w.opCtx(op)
 	rec.Started = true
-	rec.Invoke, rec.InvokeT = e.Step, e.Now()
+	rec.Invoke, rec.InvokeT = e.StepNow(), e.Now()
 	rec.Slot.Nonce, rec.Slot.Kind = op.Nonce, op.Kind
 	defer func() {
-		rec.Return, rec.ReturnT = e.Step, e.Now()
+		rec.Return, rec.ReturnT = e.StepNow(), e.Now()
 		rec.Slot.CtxEnded = rec.ctx.Err() != nil
 		rec.Done = true
 	}()
@@ -389,7 +389,7 @@ func (w *World) runOp(rec *OpRec) {
 
 func (w *World) closeClient() {
 	if w.ClosedStep == 0 {
-		w.ClosedStep, w.ClosedT = w.Env.Step, w.Env.Now()
+		w.ClosedStep, w.ClosedT = w.Env.StepNow(), w.Env.Now()
 	}
 	if w.Client != nil {
 		w.Client.Close()
@@ -398,7 +398,7 @@ func (w *World) closeClient() {
 		gohbase.VerifCloseAdmin(w.Admin)
 	}
 	if !w.CloseReturned {
-		w.CloseReturnStep, w.CloseReturnT = w.Env.Step, w.Env.Now()
+		w.CloseReturnStep, w.CloseReturnT = w.Env.StepNow(), w.Env.Now()
 	}
 	w.CloseReturned = true
 }
@@ -484,9 +484,9 @@ func (w *World) runScan(rec *OpRec) {
 	}
 	sc := w.Client.Scan(s)
 	closeNow := func() {
-		before := e.Step
+		before := e.StepNow()
 		sc.Close()
-		rec.ScanCloseSteps = append(rec.ScanCloseSteps, before, e.Step)
+		rec.ScanCloseSteps = append(rec.ScanCloseSteps, before, e.StepNow())
 	}
 	if op.CloseAt < 0 {
 		closeNow()
@@ -497,7 +497,7 @@ func (w *World) runScan(rec *OpRec) {
 			closeNow()
 		}
 		r, err := sc.Next()
-		it := ScanItem{Err: err, Step: e.Step}
+		it := ScanItem{Err: err, Step: e.StepNow()}
 		if err != nil {
 			it.ErrStr = err.Error()
 		}
@@ -573,7 +573,7 @@ func (w *World) cancelOp(task, idx, slot int) {
 		return
 	}
 	if rec.CancelStep == 0 {
-		rec.CancelStep, rec.CancelT = w.Env.Step, w.Env.Now()
+		rec.CancelStep, rec.CancelT = w.Env.StepNow(), w.Env.Now()
 		rec.CancelSlot = slot
 		if t := w.TaskG; task < len(t) && t[task] != nil {
 			rec.CancelSite = t[task].Site
